@@ -314,6 +314,12 @@ def spec_matches(c, spec):
         return _re.match(r"^err -\d+", c) is not None
     if spec.startswith("any-ok-or-refuse"):
         return True
+    if " edit=* " in spec:
+        c = _re.sub(r" edit=-?\d+ ", " edit=* ", c)
+    if spec == "six":        # random address: exactly six bytes were produced
+        return _re.match(r"^mac=[0-9a-f]{12} calls=\d+$", c) is not None
+    if spec.startswith("prefix "):
+        return _re.match(r"^mac=%s[0-9a-f]{6} calls=\d+$" % spec.split()[1], c) is not None
     return c == spec
 
 
